@@ -67,6 +67,14 @@ func vfhC14AreaQuadHole() {
 	rev := poly.Reverse()
 	vfAssert(rev.Area() == poly.Area(), "Reverse keeps the area")
 	vfAssert(rev.Area(SignedArea) == -poly.Area(SignedArea), "Reverse negates the signed area")
+	// the options combine: a transform that neither keeps area nor orientation
+	// (determinant -6) applies to every ring, signed or not, in either order
+	f := func(p XY) XY { return XY{3 * p.Y, 2 * p.X} }
+	vfAssert(poly.Area(WithTransform(f))*2 == 6*(vfAbs(shell2)-vfAbs(hole2)), "Area(WithTransform(f)) is the area of the transformed polygon")
+	vfAssert(poly.Area(SignedArea, WithTransform(f))*2 == -6*(shell2+hole2), "signed Area(WithTransform(f)) is the signed area of the transformed polygon")
+	vfAssert(poly.Area(WithTransform(f), SignedArea) == poly.Area(SignedArea, WithTransform(f)), "option order does not matter")
+	vfAssert(NewMultiPolygon([]Polygon{poly}).Area(SignedArea, WithTransform(f)) == poly.Area(SignedArea, WithTransform(f)), "the options reach the members of a MultiPolygon")
+	vfAssert(poly.AsGeometry().Area(WithTransform(f), SignedArea) == poly.Area(SignedArea, WithTransform(f)), "and go through Geometry.Area")
 	vfReach("end")
 }
 
